@@ -202,6 +202,14 @@ func init() {
 						attestCase(c, "bind.short."+fd[0], fd[0], []string{fd[1]}, v == 1)
 					}
 				}
+				// the signature member followed by more bytes; authenticator data with a tail the signer never saw (formats that sign the
+				// whole authenticator data)
+				for _, f := range []string{"packed-self", "packed-x5c", "fido-u2f", "tpm", "android-key"} {
+					attestCase(c, "bind.short."+f, f, []string{"sig.trailingBytes"}, false)
+				}
+				for _, f := range []string{"packed-self", "packed-x5c", "android-key"} {
+					attestCase(c, "bind.short."+f, f, []string{"ad.trailingUnsigned"}, false)
+				}
 				// fido-u2f signs 32 bytes per coordinate: a credential key with longer coordinates (P-384, P-521) would leave their low-order
 				// bytes outside the signature, so such a statement must not verify at all
 				for v := 0; v < 2; v++ {
